@@ -6,8 +6,8 @@ W=$(mktemp -d /tmp/mut.XXXXXX)
 git -C /repo worktree add --detach -f "$W" HEAD >/dev/null 2>&1 || { echo "worktree failed"; exit 2; }
 ( cd "$W" && git apply "$P" ) || { echo "patch does not apply"; git -C /repo worktree remove --force "$W"; exit 2; }
 cd /verif
-VERIF_REPO="$W" "$@"
+VERIF_REPO="$W" VERIF_EVIDENCE_DIR="${VERIF_EVIDENCE_DIR:-$W.evidence}" "$@"
 rc=$?
 git -C /repo worktree remove --force "$W"
-rm -rf "$W"
+rm -rf "$W" "$W.evidence"
 exit $rc
